@@ -525,6 +525,10 @@ def run_history(hist, cfgname, want_hybrid=False, keep_image=False):
         for step in h:
             if step['act']['a'] in ('AddIsohybrid', 'RmIsohybrid'):
                 continue
+            if step['out'] == 'refuse' and step['why'] == 'hybrid_present':
+                # refused only because of the hybridisation: the call changed nothing, and without
+                # the hybridisation it would not be refused - it is not part of the baseline
+                continue
             if rp0.call(step['act']) != step['out']:
                 ok = False
                 break
@@ -657,9 +661,13 @@ def facts(hist, cfgname, upto=None):
                 f.add('catalog_full')
             if hyb is not None:
                 f.add('hybrid_reopened')
-                if hyb['offset'] > 0 or hyb['sectors'] * hyb['heads'] == 1:
-                    # open_fp recomputes sectors as psize // ((ecyl & 0xff) + 1) / heads, psize excluding the offset
-                    f.add('hybrid_reopened_geometry_misread')
+                if (hyb['efi'] == 'yes' or (hyb['efi'] == 'none' and hyb['mac'])) and hyb['sectors'] * hyb['heads'] < 33:
+                    # the image written for this reopen had its tail overwritten by the backup GPT
+                    # (open finding C12-backup-gpt-overwrites-iso-tail): what the object holds from
+                    # here on is that damaged image
+                    f.add('reopened_image_had_lost_its_tail')
+                # (open_fp used to guess the geometry from the partition size - the fact
+                # 'hybrid_reopened_geometry_misread' - and reads it from the partition entry now)
         if n == 'AddIsohybrid':
             hyb = a['spec']
             f.discard('isohybrid_on_consistent_object')
